@@ -13,7 +13,7 @@ import build
 from vflib import driver
 
 HARNESS = "c20_threads"
-SRCS = ["harness/c20_threads.c", "lib/vf.c"]
+SRCS = ["harness/c20_threads.c", "lib/vf.c", "harness/c20_peek.c"]
 
 # runs and operations (decode calls of thread A) per run.  Race reports and
 # hand-over orders vary from run to run, so the budget goes into many runs
@@ -368,7 +368,9 @@ SPEC = {
                    "with time stamp gaps that start the countdown, while two threads fetch caption pages 1-8, one requests channel switches (also while the countdown runs) "
                    "and the event handler fetches on every event type; (b) one thread runs vbi_raw_decode while two threads "
                    "add/remove/check one service at a time. Every ThreadSanitizer report in library code is a violation; every concurrently fetched "
-                   "page must equal a snapshot the decoding thread itself took inside the fetch's call/return window, every raw decode must equal the "
+                   "page must equal a snapshot the decoding thread itself took inside the fetch's call/return window; every channel switch request is executed or cancelled by a matching header "
+                   "no later than the first vbi_decode call that started after it returned (the countdown, read under its mutex after every call, is then 0; requests are also aimed at the first "
+                   "instructions of the call of a frame with a time stamp gap, where the countdown is started unless one runs); every raw decode must equal the "
                    "sequential reference of one service set possible inside its window; bounded progress: every API call returns and the decoding thread finishes its "
                    "operation count, judged by a 20 s per-call watchdog whose expiry must reproduce in isolation (then with gdb stacks) before it counts. "
                    "Held on the schedules that occurred (seeded yield hook H2 at the library's own unlock points widens them); not a proof over all interleavings."),
@@ -401,6 +403,8 @@ SPEC = {
         "a_fetches_with_several_candidate_snapshots": 4000,
         "a_channel_switch_requests": 3000,
         "a_channel_switch_requests_during_decode": 1500,
+        "a_switch_requests_judged_not_lost": 2000,
+        "a_switch_requests_inside_decode_of_gap_frame": 300,
         "a_caption_events": 30000,
         "a_network_events": 4000,
         "a_trigger_events": 100,
